@@ -349,7 +349,7 @@ class FourierSeries:
             basename = self.header.basename
         self.header.make_inf(outfile=f"{basename}.inf")
         out_filename = f"{basename}.fft"
-        self.data.view(np.float32).tofile(out_filename)
+        np.ascontiguousarray(self.data).view(np.float32).tofile(out_filename)
         return out_filename
 
     def to_spec(self, filename: str | None = None) -> str:
@@ -368,7 +368,7 @@ class FourierSeries:
         if filename is None:
             filename = f"{self.header.basename}.spec"
         with self.header.prep_outfile(filename, nbits=32) as outfile:
-            outfile.cwrite(self.data.view(np.float32))
+            outfile.cwrite(np.ascontiguousarray(self.data).view(np.float32))
         return filename
 
     @classmethod
